@@ -161,6 +161,14 @@ def _check_dt(plan, ctx):
         via = ctx.call(f".dt.{name}()", lambda: getattr(x.dt, name)())
         if build.cells(via) != got or np.asarray(via).dtype != np.asarray(out).dtype:
             raise Violation(f"Vector.dt.{name}() differs from dt.{name}(vector)", proxy=build.cells(via), module=got)
+        if n >= 2:
+            # history: the proxy of x has been used; vectors derived from x have proxies of their own
+            for label, y in (("x[::-1]", x[::-1]), ("x[1:]", x[1:]), ("x.copy()[:1]", x.copy()[:1])):
+                a = build.cells(ctx.call(f"{label}.dt.{name}()", lambda: getattr(y.dt, name)()))
+                b = build.cells(f(y))
+                if a != b:
+                    raise Violation(f"the .dt proxy of a vector derived from one whose proxy was used answers for the wrong "
+                                    f"vector ({label})", proxy=a, module=b)
         for j in range(n):
             if objs[j] is not None and j < 2:
                 s = ctx.call(f"dt.{name}(scalar)", f, np.asarray(x)[j])
@@ -293,6 +301,14 @@ def _check_re(plan, ctx):
     if got != want:
         raise Violation(f"regex.{fn} differs from re.{fn} element-wise (missing -> missing)", got=got, want=want, plan=plan)
     via = proxy()
+    if n >= 2:
+        y = x[::-1]
+        ya = list(np.asarray(y.re.findall("a"), dtype=object))
+        yb = list(np.asarray(di.regex.findall("a", y), dtype=object))
+        yu = [str(v) for v in np.asarray(y.str.upper())]
+        if ya != yb or yu != [str(v) for v in np.strings.upper(np.asarray(y))]:
+            raise Violation("the .re / .str proxy of a vector derived from one whose proxy was used answers for the wrong vector",
+                            proxy=ya, module=yb)
     gv = [norm(y) for y in list(np.asarray(via, dtype=object))]
     if fn == "sub":
         gv = [None if y == "" and vals[j] == "" else y for j, y in enumerate(gv)]
